@@ -44,21 +44,34 @@ class Decide(Exception):
     pass
 
 
+class What(str):
+    """name of a decision ('gt', 'eq', 'truth'); .key identifies the compared terms"""
+    key: str = ""
+
+
 class Oracle:
-    """sequence of boolean decisions for branches on terms; enumerated depth-first by the runner"""
+    """sequence of boolean decisions for branches on terms; enumerated depth-first by the runner.  The same question (same
+    operator on the same terms) asked twice on a path gets the same answer."""
 
     def __init__(self, script: List[bool]):
         self.script, self.i, self.log = list(script), 0, []
         self.facts: List[z3.ExprRef] = []      # equalities / disequalities decided on this path
+        self.asked: Dict[str, bool] = {}
 
-    def decide(self, what: str) -> bool:
+    def decide(self, what: str, key: str = "") -> bool:
+        if key and key in self.asked:
+            return self.asked[key]
         if self.i < len(self.script):
             v = self.script[self.i]
         else:
             v = True
             self.script.append(v)
         self.i += 1
-        self.log.append((what, v))
+        w = What(what)
+        w.key = key
+        self.log.append((w, v))
+        if key:
+            self.asked[key] = v
         return v
 
 
@@ -117,7 +130,7 @@ class T:
         return T(fn(sym, 1 + len(args) + len(names))(s.e, *[tv(a) for a in args], *[tv(kw[n]) for n in names]))
 
     def _cmp(s, op, o):
-        v = ORACLE.decide(f"{op}")
+        v = ORACLE.decide(f"{op}", f"{op}({s.e}, {tv(o)})")
         if op == "eq":
             ORACLE.facts.append(s.e == tv(o) if v else s.e != tv(o))
         return v
@@ -131,7 +144,7 @@ class T:
     __hash__ = None
 
     def __bool__(s):
-        return ORACLE.decide("truth")
+        return ORACLE.decide("truth", f"truth({s.e})")
 
     def __len__(s):
         return s._len if s._len is not None else 7
